@@ -3,7 +3,8 @@
    harness binary `sigassign`, one `file` record per input with its list of definitions.  For every definition
    that lifted, prints the reports of Model.SignalAssign.find_signal_assignments
    on the dumped SSA cfg in the harness' format, and the two observed
-   hypotheses:  (file (def KIND NAME REPORTS KEYS CKEYS) | (def KIND NAME liftfail) ...) *)
+   hypotheses and the source-level sub-key distinctness:
+   (file (def KIND NAME REPORTS KEYS CKEYS SUBKEYS) | (def KIND NAME liftfail) ...) *)
 open Datatypes
 open Drvlib
 open Lib_irwire
@@ -24,8 +25,9 @@ let def = function
   | L [A "def"; A kind; A name; L [A "ok"; c; _; _]] ->
     let g = r_cfg c in
     let rs = Stdlib.List.sort compare (Stdlib.List.map show_report (find_signal_assignments g)) in
-    Printf.sprintf "(def %s %s (%s) %d %d)" kind name (Stdlib.String.concat " " rs)
+    Printf.sprintf "(def %s %s (%s) %d %d %d)" kind name (Stdlib.String.concat " " rs)
       (if keys_distinct_b g then 1 else 0) (if constraint_keys_distinct_b g then 1 else 0)
+      (if subkeys_distinct_b g then 1 else 0)
   | L [A "def"; A kind; A name; L (A "liftfail" :: _)] -> Printf.sprintf "(def %s %s liftfail)" kind name
   | x -> failwith ("def: " ^ Stdlib.String.sub (show_sexp x) 0 60)
 
